@@ -217,6 +217,7 @@ class Accum(object):
         self.harness_errors = []
         self.wall = 0.0
         self.usim_starts = 0
+        self.known = {}          # known-finding id -> count (classified in the worker, first example kept in violations)
 
     def count(self, name, n=1):
         if n:
@@ -235,6 +236,8 @@ class Accum(object):
         self.recheck_mismatch += o.recheck_mismatch
         self.harness_errors += o.harness_errors
         self.usim_starts += o.usim_starts
+        for k, v in o.known.items():
+            self.known[k] = self.known.get(k, 0) + v
 
 
 def _worker(args):
@@ -256,11 +259,13 @@ def _worker(args):
                 return _extra[fl]
             ctx.usim_for = usim_for
         max_viol = opts.get("max_violations_per_worker", 40)
+        known_ids = set(opts.get("known_ids", []))
         for k in indices:
             if time.time() > deadline:
                 acc.count("stopped_by_wall_clock_cap")
                 break
             seed = run_seed(verif_seed, prop, k)
+            nviol_before = len(acc.violations)
             try:
                 mod.run_one(ctx, usim, seed, k, acc)
             except Exception:
@@ -268,6 +273,20 @@ def _worker(args):
                 if len(acc.harness_errors) > 5:
                     break
             acc.runs += 1
+            # known findings are counted, not collected: they must not exhaust the per-worker violation budget
+            if len(acc.violations) > nviol_before and known_ids and hasattr(mod, "classify"):
+                keep = acc.violations[:nviol_before]
+                for v in acc.violations[nviol_before:]:
+                    try:
+                        cls = mod.classify(v["rule"], v["detail"], v["plan"])
+                    except Exception:
+                        cls = None
+                    if cls in known_ids:
+                        acc.known[cls] = acc.known.get(cls, 0) + 1
+                        if acc.known[cls] > 1:
+                            continue
+                    keep.append(v)
+                acc.violations = keep
             if len(acc.violations) >= max_viol:
                 acc.count("stopped_after_max_violations")
                 break
